@@ -1306,12 +1306,9 @@ def c09_impl(im, mo=""):
     if v != "ok":
         return "WIRE-REJECTED-BY-VALIDATOR(%s)|%s" % (v, kv["impl"])
     w = kv.get("wire", ",,").split(",")
-    path = w[1] if len(w) > 1 else ""
-    if path and path != "-":
-        # URL.Path of the request line (what the router and Parse() see)
-        raw = bytes.fromhex(path).split(b"?", 1)[0]
-        path = urllib.parse.unquote_to_bytes(raw).hex()
-    return c09_canon(kv["impl"]) + "|" + path
+    # the request URL as the client wrote it (compared byte for byte with Model/Client.v client_wire)
+    url = w[1] if len(w) > 1 else ""
+    return c09_canon(kv["impl"]) + "|" + url
 
 
 def c09_canon(d):
@@ -1369,11 +1366,25 @@ def check_C09(run, replay=None):
     for i in keep:
         mkv = parse_kv(model[i])
         if "model" in mkv:
-            km.append("model=%s|%s spec=%s|%s" % (c09_canon(mkv["model"]), mkv.get("path", ""), c09_canon(mkv.get("spec", "")), mkv.get("path", "")))
+            km.append("model=%s|%s spec=%s|%s" % (c09_canon(mkv["model"]), mkv.get("wire", ""), c09_canon(mkv.get("spec", "")), mkv.get("wire", "")))
         else:
             km.append(model[i])
     compare(run, kc, ki, km, get_impl=c09_impl, context=lambda j: ctx(keep[j]),
             nontrivial=lambda c, iv: True)
+    # net/url itself against its transcription (Model/UrlEscape.v): every UE line
+    uidx = [i for i, c in enumerate(cases) if c.startswith("UE ")]
+    ucorr = [i for i in uidx if parse_kv(impl[i]).get("impl") != parse_kv(model[i]).get("model")]
+    uprop = [i for i in uidx if "spec" in parse_kv(model[i]) and parse_kv(impl[i]).get("impl") != parse_kv(model[i]).get("spec")]
+    for i in uprop[:2]:
+        run.violation({"property": run.prop, "case": cases[i], "observed_impl": impl[i], "model": model[i],
+                       "broken": "url.Values.Encode followed by URL.Query() does not return the pairs that were encoded"}, cases[i])
+    if ucorr and not uprop:
+        i = ucorr[0]
+        run.violation({"property": run.prop, "case": cases[i], "impl": impl[i], "model": model[i], "input": None,
+                       "broken": "correspondence: net/url differs from its transcription Model/UrlEscape.v (the C09 wire theorems are about the latter)",
+                       "mismatching_cases": len(ucorr)}, cases[i], note="no-failing-input-found")
+    run.coverage["url_escape_cases"] = len(uidx)
+    run.coverage["url_escape_mismatches"] = len(ucorr)
     for c in null_hits:
         run.known_hit("nullable_parameter_null", c)
     run.coverage["null_parameter_cases"] = len(null_hits)
